@@ -220,7 +220,10 @@ class MultiConnApp:
 
     def sub(self, key):
         if key not in self.apps:
-            self.apps[key] = DslApp(self.behaviours, hook=self.hook)
+            b = self.behaviours
+            if isinstance(b, dict):   # per-connection behaviour lists: {"0": [...], "*": [...]}
+                b = b.get(key, b.get("*"))
+            self.apps[key] = DslApp(b, hook=self.hook)
         return self.apps[key]
 
     def __call__(self, environ, start_response):
